@@ -99,7 +99,7 @@ func steps(kind string, n int, st upstream.Step) []upstream.Step {
 
 // Families are the scenario families of C01/C05/C19.
 var Families = []string{"steady", "reset-after-k", "neverack-restart", "neverack-restart-notraffic", "refuse-then-recover", "late-ack",
-	"stop-with-pending-acks", "stop-mid-chunk", "restarts-in-a-row", "open-at-stop", "wrong-id", "blackhole-restart", "two-outputs-one-faulty", "overflow", "session-renewal", "young-pipeline-at-stop"}
+	"stop-with-pending-acks", "stop-mid-chunk", "restarts-in-a-row", "open-at-stop", "wrong-id", "blackhole-restart", "two-outputs-one-faulty", "overflow", "session-renewal", "young-pipeline-at-stop", "interrupted-recovery"}
 
 // GenScenario draws one scenario of a family.
 func GenScenario(r *rand.Rand, family string, idx int, o Opt) Scenario {
@@ -226,6 +226,22 @@ func GenScenario(r *rand.Rand, family string, idx int, o Opt) Scenario {
 		late.StartMs = 60 + r.Intn(60)
 		cs = append(cs, late)
 		sc.Gens = []GenSpec{{Conns: cs, UpScript: healthy(), StopDelayMs: 0}, {UpScript: healthy(), WaitAcked: true}}
+	case "interrupted-recovery":
+		// a session ends with several unacknowledged chunks; the following sessions break again while those are being re-sent
+		sc.ChunkBytes = 300
+		sc.MaxPending = 10
+		s := []upstream.Step{{Kind: "neverack"}}
+		for i := 1 + r.Intn(3); i > 0; i-- {
+			s = append(s, upstream.Step{Kind: "reset", N: r.Intn(3), AckLast: false})
+		}
+		cs := conns()
+		long := ConnSpec{ID: nextID}
+		nextID++
+		for q := 1; q <= 40; q++ {
+			long.Recs = append(long.Recs, Rec{Conn: long.ID, Seq: q, App: "appA", Sev: 6, Host: "h1", Kind: "plain", Pad: 60})
+		}
+		cs = append(cs, long)
+		sc.Gens = []GenSpec{{Conns: cs, UpScript: all(s), WaitAcked: true}}
 	case "session-renewal":
 		sc.MaxDurMs = 20 + r.Intn(60)
 		cs := conns()
